@@ -128,40 +128,41 @@ AllComponents(P) == UNION {P[r].msgs : r \in 1..Len(P)}
 DependsOn(P, ch, comp) == comp \in Precede(P, ch)
 
 \* ---- the run ----------------------------------------------------------------------
-\* Everything that is a function of (configuration, mutant) is tabulated ONCE (a constant-level
-\* definition is evaluated once by TLC; the states only carry the index k into the table).
-Pairs == SetToSeq(Configs \X Mutants)
+\* Everything that is a function of (configuration, mutant) is computed once per behaviour by the
+\* Setup step and carried in the state (TLC re-evaluates definitions at every use, also constant ones).
 \* (bound variables of a set constructor are bound to VALUES: each of fs, P0, cum is computed once)
 Entry(c, d) ==
   CHOOSE e \in UNION {
-      {[cfg |-> c, dis |-> d, fs |-> fs, P |-> P0,
+      {[fs |-> fs, P |-> P0,
         \* a spec mutant drops the observe steps of the classes in d
         prog |-> Compress(SelectSeq(fs, LAMBDA s : ~(s.k = "O" /\ s.class \in d))),
         pre |-> [ch \in AllChallenges(P0) |-> cum[RoundOf(P0, ch)]]] : cum \in {CumAtoms(fs, c, P0, 1, {})}}
       : fs \in {FullSchedule(c)}, P0 \in {Protocol(c)}} : TRUE
-RECURSIVE TableFrom(_)
-TableFrom(i) == IF i > Len(Pairs) THEN <<>> ELSE <<TLCEval(Entry(Pairs[i][1], Pairs[i][2]))>> \o TableFrom(i + 1)
-Table == TableFrom(1)
 
-VARIABLES k, pc, el, tc, log, seen, ok
-vars == <<k, pc, el, tc, log, seen, ok>>
-\* log: one record per squeezed element [ch, dc] (dc = classes it depends on); seen: atoms observed so
-\* far; ok: the obligations FS1 / FS2 / FS0, evaluated on each squeezed element when it is drawn
+VARIABLES cfg, dis, T, pc, el, tc, log, seen, ok
+vars == <<cfg, dis, T, pc, el, tc, log, seen, ok>>
+\* T = Entry(cfg, dis); log: one record per squeezed element [ch, dc] (dc = classes it depends on);
+\* seen: atoms observed so far; ok: the obligations FS1 / FS2 / FS0, evaluated on each squeezed
+\* element when it is drawn
 
-cfg == Table[k].cfg
-dis == Table[k].dis
-prog == Table[k].prog
-pre == Table[k].pre
-P == Table[k].P
-Done == k > 0 /\ pc > Len(prog)
+NoCfg == [none |-> TRUE]
+prog == T.prog
+pre == T.pre
+P == T.P
+Done == pc > 0 /\ pc > Len(prog)
 
-\* the configuration is chosen by the first step (initial states are processed by one worker only)
-Init == /\ k = 0 /\ pc = 1 /\ el = 1 /\ tc = UInit /\ log = <<>> /\ seen = {}
+\* the configuration is chosen by the first step and set up by the second, so that TLC's workers
+\* share the work (initial states are processed by one worker only)
+Init == /\ cfg = NoCfg /\ dis = {} /\ T = NoCfg /\ pc = 0 /\ el = 1 /\ tc = UInit /\ log = <<>> /\ seen = {}
         /\ ok = [fs1 |-> TRUE, fs2 |-> TRUE, fs0 |-> TRUE]
-Choose == /\ k = 0 /\ k' \in 1..Len(Table)
-          /\ UNCHANGED <<pc, el, tc, log, seen, ok>>
+Choose == /\ pc = 0 /\ cfg = NoCfg
+          /\ \E c \in Configs : \E d \in Mutants : cfg' = c /\ dis' = d
+          /\ UNCHANGED <<T, pc, el, tc, log, seen, ok>>
+Setup == /\ pc = 0 /\ cfg # NoCfg
+         /\ T' = Entry(cfg, dis) /\ pc' = 1
+         /\ UNCHANGED <<cfg, dis, el, tc, log, seen, ok>>
 Run ==
-  /\ k > 0 /\ ~Done
+  /\ pc > 0 /\ ~Done
   /\ LET s == prog[pc]
          r == CHOOSE x \in {StepElem(s, el, tc)} : TRUE
      IN /\ tc' = r[1]
@@ -173,8 +174,8 @@ Run ==
                  ELSE ok
         /\ seen' = IF s.k = "O" THEN seen \cup ElemTaint(s, el, tc) ELSE seen
         /\ IF el < s.n THEN el' = el + 1 /\ pc' = pc ELSE el' = 1 /\ pc' = pc + 1
-        /\ k' = k
-Next == Choose \/ Run
+        /\ UNCHANGED <<cfg, dis, T>>
+Next == Choose \/ Setup \/ Run
 
 \* ---- obligations ------------------------------------------------------------------
 FS1 == ok.fs1
@@ -184,24 +185,24 @@ FS0 == ok.fs0
 MutantCaught == (Done /\ dis # {}) => ~ok.fs1
 \* every challenge of the protocol is drawn, with the right number of elements, in protocol order
 ChallengeCount(ch) == Cardinality({j \in 1..Len(log) : log[j].ch = ch})
-ExpectedCount(ch) == FoldSeq(LAMBDA s, acc : acc + (IF s.k = "S" /\ s.class = ch THEN s.n ELSE 0), 0, Table[k].fs)
+ExpectedCount(ch) == FoldSeq(LAMBDA s, acc : acc + (IF s.k = "S" /\ s.class = ch THEN s.n ELSE 0), 0, T.fs)
 Complete == Done =>
   /\ \A ch \in AllChallenges(P) :
         ChallengeCount(ch) = ExpectedCount(ch)
   /\ \A j \in 1..Len(log) : log[j].ch \in AllChallenges(P)
   /\ \A i \in 1..Len(log), j \in 1..Len(log) : i < j => RoundOf(P, log[i].ch) <= RoundOf(P, log[j].ch)
-  /\ \A c \in AllComponents(P) : CountF(Table[k].fs, cfg, c) > 0 => AtomsOf(c, CountF(Table[k].fs, cfg, c)) \subseteq seen
+  /\ \A c \in AllComponents(P) : CountF(T.fs, cfg, c) > 0 => AtomsOf(c, CountF(T.fs, cfg, c)) \subseteq seen
 
 \* ---- the expected dependency matrix -----------------------------------------------
 ObservedDeps(ch) == UNION {log[j].dc : j \in {i \in 1..Len(log) : log[i].ch = ch}}
 LiveChallenges == {ch \in AllChallenges(P) : ChallengeCount(ch) > 0}
-LiveComponents == {c \in AllComponents(P) : CountF(Table[k].fs, cfg, c) > 0}
+LiveComponents == {c \in AllComponents(P) : CountF(T.fs, cfg, c) > 0}
 Matrix == [system |-> "stark", cfg |-> cfg,
            challenges |-> SetToSeq(LiveChallenges),
            components |-> SetToSeq(LiveComponents),
            depends |-> [ch \in LiveChallenges |-> SetToSeq({c \in LiveComponents : DependsOn(P, ch, c)})],
            schedule_depends |-> [ch \in LiveChallenges |-> SetToSeq(ObservedDeps(ch))],
-           program |-> [i \in 1..Len(Table[k].fs) |->
-                          [k |-> Table[k].fs[i].k, class |-> Table[k].fs[i].class, n |-> Table[k].fs[i].n]]]
+           program |-> [i \in 1..Len(T.fs) |->
+                          [k |-> T.fs[i].k, class |-> T.fs[i].class, n |-> T.fs[i].n]]]
 EmitMatrix == Done => PrintT("MATRIX " \o ToJson(Matrix))
 =============================================================================
